@@ -226,6 +226,64 @@ def gen_mapping(rng):
     return {"kind": "mapping", "style": kind, "adds": adds, "queries": queries}
 
 
+def gen_srvfile(rng):
+    """Files on a server (tables/<name>.table with distinct contents) and a history of getFile requests to ONE
+    DistribServer object, each with a destination file: a fresh one (what getFile generates by default) or one of two scratch
+    files that the caller reuses."""
+    names = ["afw", "boost", "python", "utils"][:rng.randint(2, 4)]
+    srv = [["tables/%s.table" % n, "setupRequired(%s_dep)\n# %d\n" % (n, rng.randint(0, 999))] for n in names]
+    reqs, fresh = [], 0
+    for _ in range(rng.randint(2, 9)):
+        path = rng.choice([x[0] for x in srv] + (["tables/absent.table"] if rng.random() < 0.1 else []))
+        r = rng.random()
+        if r < 0.45:
+            dest = "fresh%d" % fresh
+            fresh += 1
+        else:
+            dest = rng.choice(["scratchA", "scratchA", "scratchB"])
+        reqs.append([path, dest])
+    return {"kind": "srvfile", "server": srv, "reqs": reqs}
+
+
+def impl_srvfile(c):
+    import tempfile
+    from eups.distrib import server
+    E = _eups()
+    _SERVER_N[0] += 1
+    base = os.path.join(E._c18root, "fsrv%d" % _SERVER_N[0])
+    os.makedirs(os.path.join(base, "tables"))
+    dests = os.path.join(E._c18root, "fdest%d" % _SERVER_N[0])
+    os.makedirs(dests)
+    for p_, text in c["server"]:
+        with open(os.path.join(base, p_), "w") as f:
+            f.write(text)
+    tempfile.tempdir = E._c18root
+    server.DistribServer._fileCache.clear()
+    ds = server.DistribServer(base, verbosity=-1)
+    answers = []
+    for path, dest in c["reqs"]:
+        try:
+            f = ds.getFile(path, filename=os.path.join(dests, dest))
+            with open(f) as fh:
+                answers.append({"content": fh.read()})
+        except Exception as e:  # noqa
+            n = type(e).__name__
+            answers.append({"error": "notfound" if n == "RemoteFileNotFound" else "samefile" if n == "SameFileError" else n})
+    return {"answers": answers}
+
+
+def oracle_srvfile(c, io_):
+    """Whatever was asked before and wherever the copies were put: the file a server object hands out for a path holds what
+    the server holds under that path."""
+    srv = dict((p_, t) for p_, t in c["server"])
+    for i, ((path, dest), a) in enumerate(zip(c["reqs"], io_["answers"])):
+        want = {"content": srv[path]} if path in srv else {"error": "notfound"}
+        if a != want:
+            yield ("server_file_is_the_servers_file", None, "request %d (%s -> %s) after %r: got %r, the server holds %r" %
+                   (i, path, dest, c["reqs"][:i], a, want))
+            return
+
+
 def gen_manseq(rng):
     """Operation SEQUENCES on one live Manifest: addDependency / reverse / roll(n) / getDependency / write and read back -
     into a fresh manifest or appended to the live one (setproduct or not)."""
@@ -959,7 +1017,7 @@ def impl_remap(c, E=None):
 
 
 def impl_case(c):
-    return {"manifest": impl_manifest, "taglist": impl_taglist, "mapping": impl_mapping, "mapseq": impl_mapseq, "tagseq": impl_tagseq, "manseq": impl_manseq, "remap": impl_remap,
+    return {"manifest": impl_manifest, "taglist": impl_taglist, "mapping": impl_mapping, "mapseq": impl_mapseq, "tagseq": impl_tagseq, "manseq": impl_manseq, "srvfile": impl_srvfile, "remap": impl_remap,
             "server": impl_server}[c["kind"]](c)
 
 
@@ -1233,7 +1291,7 @@ def oracle_server(c, io_):
 
 
 ORACLES = {"manifest": oracle_manifest, "taglist": oracle_taglist, "mapping": oracle_mapping, "remap": oracle_remap,
-           "server": oracle_server, "mapseq": oracle_mapseq, "tagseq": oracle_tagseq, "manseq": oracle_manseq}
+           "server": oracle_server, "mapseq": oracle_mapseq, "tagseq": oracle_tagseq, "manseq": oracle_manseq, "srvfile": oracle_srvfile}
 
 
 # ---- model -----------------------------------------------------------------------------------------
@@ -1258,6 +1316,8 @@ def model_requests(c, io_):
         return [{"m": "c18", "op": "mapping", "adds": c["adds"], "queries": c["queries"]}]
     if k == "mapseq":
         return [{"m": "c18", "op": "mapseq", "ops": c["ops"]}]
+    if k == "srvfile":
+        return [{"m": "c18", "op": "srvfile", "server": c["server"], "reqs": c["reqs"], "pinned": False}]
     if k == "manseq":
         return [{"m": "c18", "op": "manseq", "product": c["product"], "version": c["version"], "native": NATIVE, "ops": c["ops"]}]
     if k == "tagseq":
@@ -1282,7 +1342,7 @@ def model_output(c, io_, answers):
         if len(answers) > 1:
             out["read"] = answers[1]
         return out
-    if k in ("mapping", "mapseq", "tagseq", "manseq"):
+    if k in ("mapping", "mapseq", "tagseq", "manseq", "srvfile"):
         return answers[0]
     if k == "server":
         return {"answers": answers[0]["answers"]}
@@ -1325,6 +1385,8 @@ def nontrivial(c, io_):
         return False
     if k == "mapping":
         return any(list(r) != q[:2] for q, r in zip(c["queries"], io_.get("applied", [])))
+    if k == "srvfile":
+        return len(c["reqs"]) > 1
     if k == "manseq":
         return len(io_.get("out", [])) > 1
     if k == "tagseq":
@@ -1367,6 +1429,13 @@ def evaluate(ctx, cases):
                 ctx.hist("taglist:odd-tag")
             if "readTag" in c:
                 ctx.hist("taglist:reader-expects-another-tag")
+        elif kind == "srvfile":
+            seen = {}
+            for path, dest in c["reqs"]:
+                if dest in seen and seen[dest] != path:
+                    ctx.hist("srvfile:destination-reused-for-another-source")
+                    break
+                seen[dest] = path
         elif kind == "manseq":
             for o, r in zip(c["ops"], io_["out"]):
                 if o["op"] in ("roll", "reverse") and isinstance(r, dict) and len(r.get("deps", [])) > 1:
@@ -1439,7 +1508,7 @@ def corpus_cases():
 
 
 GEN = {"manifest": gen_manifest, "taglist": gen_taglist, "mapping": gen_mapping, "remap": gen_remap, "server": gen_server,
-       "mapseq": gen_mapseq, "tagseq": gen_tagseq, "manseq": gen_manseq}
+       "mapseq": gen_mapseq, "tagseq": gen_tagseq, "manseq": gen_manseq, "srvfile": gen_srvfile}
 
 
 def enum_mappings():
@@ -1459,9 +1528,9 @@ def enum_mappings():
     return out
 
 
-QUICK = [("manifest", 2400, 600), ("taglist", 1200, 400), ("mapping", 1500, 500), ("mapseq", 1200, 400), ("tagseq", 1000, 500), ("manseq", 800, 400), ("remap", 1600, 400),
+QUICK = [("manifest", 2400, 600), ("taglist", 1200, 400), ("mapping", 1500, 500), ("mapseq", 1200, 400), ("tagseq", 1000, 500), ("manseq", 800, 400), ("srvfile", 800, 400), ("remap", 1600, 400),
          ("server", 1000, 500)]
-THOROUGH = [("manifest", 60000, 600), ("taglist", 30000, 600), ("mapping", 40000, 600), ("mapseq", 30000, 600), ("tagseq", 30000, 600), ("manseq", 30000, 600),
+THOROUGH = [("manifest", 60000, 600), ("taglist", 30000, 600), ("mapping", 40000, 600), ("mapseq", 30000, 600), ("tagseq", 30000, 600), ("manseq", 30000, 600), ("srvfile", 20000, 600),
             ("remap", 40000, 600), ("server", 25000, 600)]
 
 
@@ -1495,6 +1564,9 @@ def check_floors(ctx):
         raise common.InfraError("degenerate distribution: manifest sequences: %d reorderings, %d reads into the live manifest, %d "
                                 "getDependency hits" % (h.get("manseq:order-changed", 0), h.get("manseq:read-into-live-manifest", 0),
                                                         h.get("manseq:getdep-found", 0)))
+    if h.get("srvfile:destination-reused-for-another-source", 0) < 100:
+        raise common.InfraError("degenerate distribution: %d server-file histories reuse a destination for another source"
+                                % h.get("srvfile:destination-reused-for-another-source", 0))
     if h.get("remap:after-an-earlier-call-without-mapping-argument", 0) < 60:
         raise common.InfraError("degenerate distribution: %d remap cases preceded by an earlier call without a mapping argument"
                                 % h.get("remap:after-an-earlier-call-without-mapping-argument", 0))
